@@ -774,4 +774,121 @@ def scalar_amount(repo: Repo) -> RuleRun:
 scalar_amount.rule_id = "C11.SCALAR-AMOUNT"
 
 
-RULES = [quad_map_rule, chop_coverage, chop_role, radial_convention, arc_rings, chain_source, mirror_pairing, trig_domain, fill_conformal, arc_side, affine_kinds, stack_chain, no_shared_parts, moved_once, transform_routing, axis_terms, mirror_matrix, arguments_untouched, arc_midpoint, scalar_amount]
+def joint_cusps(repo: Repo) -> RuleRun:
+    """'... adjacent blocks share the vertices along their common faces' for the pipe joints: neighbouring branches meet in the
+    plane that bisects the gap between them, so the slanted end of branch i towards branch i+1 and the slanted end of branch
+    i+1 towards branch i are sheared by the same amount - their cusp angles agree modulo pi (the shear is the tangent), whatever
+    the size of the gap (an L joint has one gap of 270 degrees). Abstract run of JointBase.__init__ for every joint class with
+    its own _get_angles (floating-point arithmetic on the angles only), observing the two angles handed to every CuspCylinder."""
+    import math
+    import operator
+
+    r = RuleRun(PROP, "C11.JOINT-CUSPS", floor=3, what="every pair of neighbouring joint branches is cut by the same bisecting plane: right cusp angle of branch i = left cusp angle of branch i+1 (mod pi), and that angle is half the gap between them")
+    base = repo.cls("construct.assemblies.joints.JointBase")
+    init = base.methods["__init__"]
+    classes = [c for c in repo.subclasses(base) if c is not base]
+    r.require(len(classes) >= 3, f"only {len(classes)} joint classes found")
+    OPS = {ast.Add: operator.add, ast.Sub: operator.sub, ast.Mult: operator.mul, ast.Div: operator.truediv, ast.Mod: operator.mod}
+
+    def arith(op, a, b):
+        if type(op) in OPS and all(isinstance(x, (int, float)) and not isinstance(x, bool) for x in (a, b)):
+            if isinstance(op, (ast.Div, ast.Mod)) and b == 0:
+                raise Raised("ZeroDivisionError")
+            return OPS[type(op)](a, b)
+        return NO_MATCH
+
+    for cls in sorted(classes, key=lambda c: c.qualname):
+        for branches in ((3, 4, 5, 6) if cls.name == "NJoint" else (None,)):
+            seen = []
+
+            def hook(ev, call: ast.Call, name, seen=seen):
+                nm = (name or "").split(".")[-1]
+                if nm == "CuspCylinder":
+                    args = [ev.eval(a) for a in call.args]
+                    seen.append((args[3], args[4]))
+                    return Obj("cusp", shapes=[Obj("right"), Obj("left")])
+                if nm == "rotate" and isinstance(call.func, ast.Attribute):
+                    return None
+                if nm == "linspace":
+                    a, b = ev.eval(call.args[0]), ev.eval(call.args[1])
+                    num = next((ev.eval(k.value) for k in call.keywords if k.arg == "num"), ev.eval(call.args[2]) if len(call.args) > 2 else 50)
+                    endpoint = next((ev.eval(k.value) for k in call.keywords if k.arg == "endpoint"), True)
+                    step = (b - a) / (num - 1 if endpoint else num)
+                    return [a + i * step for i in range(num)]
+                if nm in ("asarray", "array") and call.args:
+                    return ev.eval(call.args[0])
+                if isinstance(call.func, ast.Attribute) and call.func.attr == "__init__" and isinstance(call.func.value, ast.Call) and attr_chain(call.func.value.func) == "super":
+                    # the constructor chain up to JointBase runs; Assembly.__init__ only stores the shapes
+                    stack = getattr(ev, "_cls_stack", [])
+                    if stack and stack[-1][0] is base:
+                        return None
+                return NO_MATCH
+
+            this = Obj("joint", cls=cls)
+            ctor = repo.find_method(cls, "__init__")
+            ev = Evaluator(repo=repo, module=ctor.module, call_hook=hook, bind={"np.pi": math.pi, "numpy.pi": math.pi, "math.pi": math.pi})
+            ev.float_arith = True
+            ev.binop_hook = arith
+            ev.opaque_arith = False
+            args = [this, Sym("start"), Sym("center"), Sym("radius_point")] + ([branches] if branches is not None and len(ctor.params) > 4 else [])
+            sub_hook = ev.binop_hook
+
+            def arith2(op, a, b, sub_hook=sub_hook):
+                res = sub_hook(op, a, b)
+                if res is NO_MATCH and (isinstance(a, Sym) or isinstance(b, Sym)):
+                    return Sym("vector")
+                return res
+
+            ev.binop_hook = arith2
+            try:
+                ev.call_funcinfo(ctor, args)
+            except (Raised, NotEvaluable) as err:
+                raise AnalysisError(f"{cls.name}.__init__ not evaluable on the joint model: {err}") from err
+            n = len(seen)
+            r.require(n >= 2 and all(isinstance(x, (int, float)) for pair in seen for x in pair), f"{cls.name}: no cusp angles observed on the model ({seen})")
+            angles = ev.call_funcinfo(repo.find_method(cls, "_get_angles"), [this, branches if branches is not None else 4])
+            problems = []
+            for i in range(n):
+                right_i, left_next = seen[i][1], seen[(i + 1) % n][0]
+                gap = (angles[(i + 1) % n] - angles[i]) % (2 * math.pi)
+                for what, val in (("right cusp angle of branch %d" % i, right_i), ("left cusp angle of branch %d" % ((i + 1) % n), left_next)):
+                    k = (val - gap / 2) / math.pi
+                    if abs(k - round(k)) > 1e-9:
+                        problems.append(f"{what} is {math.degrees(val):.1f} deg, the gap between branches {i} and {(i + 1) % n} is {math.degrees(gap):.1f} deg (half: {math.degrees(gap / 2):.1f} deg, modulo 180)")
+            label = cls.name + (f"({branches})" if branches is not None else "")
+            r.check(
+                not problems,
+                init,
+                f"{label}: {n} branches cut by their bisecting planes",
+                f"{label}: " + "; ".join(problems[:2]) + " - the two branches are sheared by different amounts, their end faces do not coincide: the joint is not face-connected (vertices are not shared along the cut)",
+                init.node,
+                key=f"cusps:{label}",
+            )
+    return r
+
+
+joint_cusps.rule_id = "C11.JOINT-CUSPS"
+
+
+def no_exact_coordinates(repo: Repo) -> RuleRun:
+    """'adjacent blocks share the vertices along their common faces': shared points of a Shell (and of every other construct) are recognised by distance, not bit for bit."""
+    from ..tolerance import exact_coordinate_equality_rule
+
+    return exact_coordinate_equality_rule(repo, PROP, "C11.NO-EXACT-COORDINATES", ('construct.',))
+
+
+no_exact_coordinates.rule_id = "C11.NO-EXACT-COORDINATES"
+
+
+def grid_roles(repo: Repo) -> RuleRun:
+    """'adjacent blocks share the vertices along their common faces': every loft of a shape joins the faces at the SAME grid place of its start and end sketch. Same rule as C19.GRID-ROLES."""
+    from ..report import rebrand
+    from . import c19
+
+    return rebrand(c19.grid_roles(repo), PROP, "C11.GRID-ROLES")
+
+
+grid_roles.rule_id = "C11.GRID-ROLES"
+
+
+RULES = [quad_map_rule, chop_coverage, chop_role, radial_convention, arc_rings, chain_source, mirror_pairing, trig_domain, fill_conformal, arc_side, affine_kinds, stack_chain, no_shared_parts, moved_once, transform_routing, axis_terms, mirror_matrix, arguments_untouched, arc_midpoint, scalar_amount, joint_cusps, no_exact_coordinates, grid_roles]
